@@ -666,3 +666,68 @@ pub fn families_surface_poisonable_bypass(prop: &str, doc: &Value) -> (Vec<Pair>
 	}
 	(v, seen)
 }
+
+/// S8 (C14): a safe function of a hold type that takes the hold (by reference)
+/// and a closure to which it lends a `ThreadKey`: the key must not be able to
+/// leave the closure (the hold is alive again when the function returns).
+pub fn families_surface_key_lending(prop: &str, doc: &Value) -> (Vec<Pair>, usize) {
+	fn mentions_key(t: &Value) -> bool {
+		match t {
+			Value::Object(m) => {
+				m.get("resolved_path").and_then(|r| r.get("path")).and_then(|p| p.as_str()).map(|p| p.rsplit("::").next() == Some("ThreadKey")).unwrap_or(false)
+					|| m.values().any(mentions_key)
+			}
+			Value::Array(a) => a.iter().any(mentions_key),
+			_ => false,
+		}
+	}
+	/// a closure-typed parameter (impl Fn* / generic bound) whose arguments mention ThreadKey
+	fn lends_key(t: &Value) -> bool {
+		match t {
+			Value::Object(m) => {
+				if let Some(p) = m.get("parenthesized") {
+					if p.get("inputs").map(mentions_key).unwrap_or(false) {
+						return true;
+					}
+				}
+				m.values().any(lends_key)
+			}
+			Value::Array(a) => a.iter().any(lends_key),
+			_ => false,
+		}
+	}
+	let mut v = Vec::new();
+	let mut seen = 0usize;
+	let region = |t: &str| format!("//<<\n{t}\n//>>");
+	for (owner, _tr, _ta, name, func) in functions_of(doc, &HOLD_TYPES) {
+		seen += 1;
+		let inputs = func["sig"].get("inputs").and_then(|i| i.as_array()).cloned().unwrap_or_default();
+		if inputs.len() != 2 {
+			continue;
+		}
+		let Some(is_mut) = is_self_ref(&inputs[0][1]) else { continue };
+		// the closure may be `impl Fn..` in argument position or a generic with a where clause
+		let closure_ty = &inputs[1][1];
+		let generics = func.get("generics").cloned().unwrap_or(Value::Null);
+		if !(lends_key(closure_ty) || (closure_ty.get("generic").is_some() && lends_key(&generics))) {
+			continue;
+		}
+		let is_self = inputs[0].get(0).and_then(|n| n.as_str()) == Some("self");
+		for lock in [LockTy::Mutex, LockTy::RwLock] {
+			let Some(h) = holder(&owner, lock) else { continue };
+			let amp = if is_mut { "&mut " } else { "&" };
+			let call = |body: &str| if is_self { format!("{}.{name}({body})", h.recv) } else { format!("{owner}::{name}({amp}{}, {body})", h.recv) };
+			let body = format!("    let key = ThreadKey::get().unwrap();\n    {}\n    let other = Mutex::new(0u8);\n    let mut g = {};\n{}@@\n", h.decl, h.acquire, h.pre);
+			let template = format!("{PRELUDE}pub fn probe() {{\n{body}\n}}\n");
+			v.push(Pair {
+				prop: prop.into(),
+				family: "S8-surface-lent-key-leaves-the-closure".into(),
+				name: format!("{owner}::{name} on {lock:?}"),
+				twin: template.replace("@@", &region(&format!("    {};", call("|k| { other.scoped_lock(k, |_y| ()); }")))),
+				offending: template.replace("@@", &region(&format!("    let k = {};\n    other.scoped_lock(k, |_y| ());", call("|k| k")))),
+				std_offending: None,
+			});
+		}
+	}
+	(v, seen)
+}
